@@ -201,7 +201,21 @@ def _conclude(mod, tier, seed, specs, results, problems, stopped_by, t0):
                nontrivial=len(sigs))
     inconclusive, extra = None, {}
     if hasattr(mod, "finalize"):
-        inconclusive, extra = mod.finalize(agg)
+        fin = mod.finalize(agg)
+        inconclusive, extra = fin[0], fin[1]
+        for v in (fin[2] if len(fin) > 2 else []):  # verdicts that only exist over the whole run (statistical)
+            pseudo = dict(spec=dict(_i="run", finalize=True), inputs=v.get("witness"))
+            if v["key"] in known_keys:
+                viol_known.setdefault(v["key"], []).append((pseudo, v))
+            else:
+                viol_unknown.append((pseudo, v))
+                name = f"{tier}_seed{seed}_run_{_slug(v['key'])}.json"
+                os.makedirs(rdir, exist_ok=True)
+                path = os.path.join(rdir, name)
+                with open(path, "w") as f:
+                    json.dump(dict(property=prop, tier=tier, seed=seed, spec=pseudo["spec"], violation=v,
+                                   versions=_versions()), f, indent=1, default=str)
+                replay_paths.append((v, path))
     unjudged = sum(p["unjudged_cases"] for p in problems) + len(inconc_cases)
     min_nt = getattr(mod, "MIN_NONTRIVIAL", {"quick": 2, "thorough": 2})
     if isinstance(min_nt, dict):
